@@ -291,6 +291,8 @@ class Evaluator(object):
                 if isinstance(o, Obj):
                     name = mangle(o.cls, e.attr) if o.cls else e.attr
                     if name not in o.attrs:
+                        if self.lenient:
+                            return Sym("opaque:attr:%s" % name)
                         raise AnalysisError("attribute %s of abstract object not defined" % name)
                     return o.attrs[name]
                 if isinstance(o, Opaque):
